@@ -18,6 +18,11 @@ def run(tier):
                    what='change_meta_unique_together / change_meta_index_together / change_meta_indexes emit the same statements for every iteration order of the sets they build (builtin set replaced by a permutation-ordered stand-in)',
                    bounds='3 functions x 5 old x 5 new together-lists / Meta.indexes lists (0-3 entries) x 6 permutations',
                    functions=['db/common.py change_meta_unique_together, change_meta_index_together, change_meta_indexes, get_fields_for_names, create_unique_index', 'db/state.py DatabaseState.find_index/add_index/remove_index', 'mock_models.py MockModel']),
+        Obligation('state_clone', 'harness/c14.py', 'h_state_clone', timeout=400,
+                   partitions=[[op, ot, oi] for op in range(4) for ot in range(2) for oi in range(3)],
+                   what='DatabaseState.clone() (the state the preview SQL of EvolveAppTask.prepare is generated against) is equal to and independent of the original (the state the execution SQL is generated against): adding/removing a plain or unique index, clearing a table\'s indexes or adding a table on either one never shows in the other',
+                   bounds='1-2 tables, 1-2 starting indexes from 3 names x plain/unique, one operation of {add_index, remove_index, clear_indexes, add_table} x 2 tables x 3 names x plain/unique, applied to the clone or to the original',
+                   functions=['db/state.py DatabaseState.clone, add_table, add_index, remove_index, clear_indexes, get_index, iter_indexes']),
     ]
     return run_check('C14', obs, tier,
                      assumptions=['PermSet replaces the name `set` as looked up from django_evolution.db.common; PYTHONHASHSEED itself is process configuration and not a solver variable',
